@@ -79,6 +79,11 @@ def restart_catalogue():
     def step(act, r, b=0, runs=None, loaders=False):
         return {"act": act, "r": r, "b": b, "runs": runs or [], "loaders": loaders}
     scheds = []
+    # one of the two clock files lost: the loader has to rebuild it all the same
+    for which in (1, 2):
+        s = [step("NewBug", "A", runs=one), step("Edit", "A", 1, one), step("Edit", "A", 1, one), step("NewBug", "A", runs=one), step("Edit", "A", 2, one),
+             step("DeleteClocks", "A", which), step("Reopen", "A", loaders=True), step("NewBug", "A", runs=one), step("Edit", "A", 1, one), step("Read", "A", 1)]
+        scheds.append({"replicas": REPLICAS2, "steps": s, "quiesce": True, "name": "restart-one-clock-file-lost-%d" % which})
     for ld in (True, False):
         for dele in (True, False):
             s = [step("NewBug", "A", runs=one), step("Edit", "A", 1, one), step("Push", "A"), step("Fetch", "B"),
@@ -163,7 +168,7 @@ def uniform(c, n, replicas, nbug=3, depth=18, restart=False):
             elif a == "Reopen":
                 steps.append(step("Reopen", r, loaders=True))
             else:
-                steps.append(step("DeleteClocks", r))
+                steps.append(step("DeleteClocks", r, rnd.randint(0, 2)))
                 steps.append(step("Reopen", r, loaders=True))
         out.append({"replicas": list(replicas), "steps": steps, "quiesce": True, "name": "uniform-%d" % k})
     return out
